@@ -289,7 +289,7 @@ structure Tx where
   deriving Repr
 
 inductive Err
-  | prio | basefee | systx | intrinsic | floor | nonce | custom | overflow | funds
+  | prio | basefee | systx | intrinsic | floor | nonce | nonceOverflow | custom | overflow | funds
   deriving DecidableEq, Repr
 
 inductive Kind | success | revert | halt | failedDeposit
@@ -359,6 +359,8 @@ def validateTxAgainstState (tx : Tx) (s : Slots) (st : St) : VRes :=
   else
     let info := tryFetch s tx.spec
     if nonceMismatch tx st then .err .nonce
+    -- EIP-2681 (commit 84adfb43): after the equality check, a transaction nonce of 2^64-1 is rejected
+    else if tx.txNonce = some (U64 - 1) then .err .nonceOverflow
     else match tx.enveloped with
       | none => .err .custom
       | some env =>
@@ -528,9 +530,29 @@ def runTx (tx : Tx) (pre : St) (info : Option L1Info) (exec : St → St) (fr : F
       | .panic => .panic
       | .ok bal => output tx pre { st with bal := bal } fr.cls g
 
-/-- `Evm::transact` with the Optimism handler: an error of the pre-verification is returned as it is
-(`end` is not reached), also for deposits -/
+/-- `optimism::end` on an error of the transaction: a deposit becomes a `FailedDeposit` halt that keeps
+mint and nonce + 1, any other transaction keeps its error -/
+def endErr (tx : Tx) (pre : St) (e : Err) : Outcome :=
+  if tx.isDeposit then failedDeposit tx pre else .err e
+
+/-- `Evm::transact` with the Optimism handler. Since commit 25ebe790 an error of the pre-verification
+(`validate_env`, `validate_initial_tx_gas`, `validate_tx_against_state`) goes through the `end` handle like
+an error of the execution. -/
 def transactWith (tx : Tx) (s : Slots) (pre : St) (exec : St → St) (fr : Frame) : Outcome :=
+  match validateEnv tx with
+  | some e => endErr tx pre e
+  | none =>
+    match validateInitialGas tx with
+    | some e => endErr tx pre e
+    | none =>
+      match validateTxAgainstState tx s pre with
+      | .err e => endErr tx pre e
+      | .panic => .panic
+      | .ok info => runTx tx pre info exec fr
+
+/-- `Evm::transact` before commit 25ebe790: `preverify_transaction_inner()?` returned the error before the
+`end` handle ran (kept for the regression theorem) -/
+def transactWithOld (tx : Tx) (s : Slots) (pre : St) (exec : St → St) (fr : Frame) : Outcome :=
   match validateEnv tx with
   | some e => .err e
   | none =>
